@@ -40,7 +40,7 @@ type ccScenario struct {
 }
 
 var (
-	ccE1 = errors.New("E1")
+	ccE1 = fmt.Errorf("E1: %w", context.Canceled) // (wraps the sentinel: still "an error other than context.Canceled")
 	ccE2 = errors.New("E2")
 )
 
@@ -51,10 +51,12 @@ type ccFnState struct {
 }
 
 type ccDriver struct {
-	x  *sched.Exec
-	sc ccScenario
-	c  *sched.Client
-	mu sync.Mutex
+	reuse bool  // the second call (same argument slice) is running: functions only count
+	cnt   []int // ... invocations per argument position
+	x     *sched.Exec
+	sc    ccScenario
+	c     *sched.Client
+	mu    sync.Mutex
 
 	cancel     context.CancelFunc
 	canc       bool
@@ -140,6 +142,13 @@ func (d *ccDriver) mkFn(i int, spec ccFn) ccall.CallConcurrentlyFunc {
 	x := d.x
 	fs := d.fn[i-1]
 	return func(ctx context.Context) error {
+		if d.reuse {
+			// second, free-running call with the caller's very same argument slice (see Run)
+			d.mu.Lock()
+			d.cnt[i-1]++
+			d.mu.Unlock()
+			return nil
+		}
 		self := x.Self()
 		onCaller := self == d.c.Actor()
 		d.mu.Lock()
@@ -361,6 +370,18 @@ func (d *ccDriver) Run(x *sched.Exec, raw json.RawMessage) json.RawMessage {
 	synctest.Wait()
 	if !flying() {
 		x.Log(trace.E{"ev": "final"})
+		if ret && !x.LogSteps {
+			// The caller's slice is the caller's: a second call with the very same slice must again run
+			// every non-nil function exactly once (a call that compacts nil entries in place would not).
+			d.reuse, d.cnt = true, make([]int, len(fns))
+			var err2 error
+			x.Safe("c1", func() { err2 = ccall.CallConcurrently(context.Background(), fns...) })
+			synctest.Wait()
+			d.mu.Lock()
+			cnt := append([]int{}, d.cnt...)
+			d.mu.Unlock()
+			x.Log(trace.E{"ev": "reuse", "counts": cnt, "res": ccErrName(err2)})
+		}
 	}
 	return used
 }
